@@ -49,9 +49,11 @@ type JNode struct {
 }
 
 type lazyInfo struct {
-	name  string
-	depth int
-	absent map[string]bool // keys decided absent
+	name     string
+	depth    int
+	absent   map[string]bool // keys decided absent
+	nonNull  bool            // decided: not null
+	excluded map[JKind]bool  // kinds ruled out by failed type assertions
 }
 
 func jNull() *JNode              { return &JNode{kind: JNull} }
@@ -299,11 +301,17 @@ func typePkgPath(t types.Type) string {
 // jsonMarshal encodes v (of static type t) into a tree. addr is non-nil when v is addressable.
 func (ex *Exec) jsonMarshal(fr *Frame, site ssa.Instruction, v Value, t types.Type, addr *Value) (*JNode, *jsonErr) {
 	t = types.Unalias(t)
+	if t == lazyIfaceType {
+		return v.(*JNode), nil
+	}
 	// interface: encode the dynamic value
 	if _, ok := t.Underlying().(*types.Interface); ok {
 		i := v.(Iface)
 		if i.t == nil {
 			return jNull(), nil
+		}
+		if isLazyIface(i) {
+			return i.v.(*JNode), nil
 		}
 		return ex.jsonMarshal(fr, site, i.v, i.t, nil)
 	}
@@ -366,6 +374,10 @@ func (ex *Exec) jsonMarshal(fr *Frame, site ssa.Instruction, v Value, t types.Ty
 		case tm.Sort == SF64 || tm.Sort == SF32:
 			if tm.Sort == SF32 {
 				panic(unsupported("marshal float32"))
+			}
+			if tm.IntOf != nil {
+				// an integral float64 within +-2^53: finite, printed as the integer
+				return &JNode{kind: JNum, num: tm.IntOf}, nil
 			}
 			bad := tOr(tFIsNaN(tm), newTermFold("fp.isInfinite", tm))
 			if ex.branch(bad, site) {
@@ -658,8 +670,7 @@ func (ex *Exec) jsonUnmarshal(fr *Frame, site ssa.Instruction, d *decodeState, n
 		return
 	case *types.Interface:
 		if u.NumMethods() == 0 {
-			ex.forceKind(n, site, -1)
-			*target = ex.jsonToIface(fr, site, n)
+			*target = ex.lazyIfaceOf(fr, site, n)
 			return
 		}
 		ex.forceKind(n, site, -1)
@@ -917,8 +928,7 @@ func (ex *Exec) jsonToIface(fr *Frame, site ssa.Instruction, n *JNode) Value {
 		ex.forceArr(n, site)
 		a := make([]Value, len(n.arr))
 		for i, c := range n.arr {
-			ex.forceKind(c, site, -1)
-			a[i] = ex.jsonToIface(fr, site, c)
+			a[i] = ex.lazyIfaceOf(fr, site, c)
 		}
 		et := types.NewInterfaceType(nil, nil)
 		return Iface{t: types.NewSlice(et), v: Slice{a: a, n: len(a)}}
@@ -931,8 +941,7 @@ func (ex *Exec) jsonToIface(fr *Frame, site ssa.Instruction, n *JNode) Value {
 		} else {
 			for i, k := range n.keys {
 				c := n.vals[i]
-				ex.forceKind(c, site, -1)
-				slot := newPtr(ex.jsonToIface(fr, site, c))
+				slot := newPtr(ex.lazyIfaceOf(fr, site, c))
 				m.entries = append(m.entries, &mapEntry{k: k, v: slot})
 				if h, ok := hashKey(k); ok {
 					m.idx[h] = len(m.entries) - 1
@@ -1037,7 +1046,21 @@ func (ex *Exec) renderJSON(n *JNode, model map[string]ModelVal, b *bytes.Buffer)
 	case JNull:
 		b.WriteString("null")
 	case JLazy:
-		b.WriteString("null")
+		// never inspected beyond null / non-null and excluded kinds: any admissible value will do
+		switch {
+		case n.lz == nil || !n.lz.nonNull:
+			b.WriteString("null")
+		case !n.lz.excluded[JStr]:
+			b.WriteString("\"lazy\"")
+		case !n.lz.excluded[JNum]:
+			b.WriteString("7")
+		case !n.lz.excluded[JBool]:
+			b.WriteString("true")
+		case !n.lz.excluded[JObj]:
+			b.WriteString("{}")
+		default:
+			b.WriteString("[]")
+		}
 	case JInvalid:
 		b.WriteString("{\"jsonrpc\":")
 	case JOpaque:
